@@ -177,7 +177,7 @@ class C11(Check):
                   'failure positions are few and swept: k in 0..2 for embedded applications and constructor lists); histories are sampled.')
     level_note = 'Trusted: the model routing tables and the dispatch model shared with C06.'
     forbidden_probes = ('failing-op-succeeded',)
-    required_probes = ('route-with-own-middleware-bound-twice', 're-embedded-after-an-inner-application-was-dropped', 'application-reference-dropped-while-embedded', 'child-changed-after-subapplication-was-made', 'one-route-in-two-applications-with-equal-typed-stacks', 'sub-kth-fails-with-other-exception-type', 'strict-application', 'context-rendered-by-factory', 'embed-with-rebind-render', 'failed-add-unchanged', 'sub-kth-fails-unchanged', 'ctor-failed', 'route-bound-twice', 'embedded-then-child-changed',
+    required_probes = ('decorated-variant-of-an-endpoint-bound-elsewhere', 'route-with-own-middleware-bound-twice', 're-embedded-after-an-inner-application-was-dropped', 'application-reference-dropped-while-embedded', 'child-changed-after-subapplication-was-made', 'one-route-in-two-applications-with-equal-typed-stacks', 'sub-kth-fails-with-other-exception-type', 'strict-application', 'context-rendered-by-factory', 'embed-with-rebind-render', 'failed-add-unchanged', 'sub-kth-fails-unchanged', 'ctor-failed', 'route-bound-twice', 'embedded-then-child-changed',
                        'embed-depth-2', 'add-at-index')
 
     # ---- generation --------------------------------------------------------
@@ -239,8 +239,12 @@ class C11(Check):
                 continue
             if r < 0.3:
                 ops.append({'op': 'add_route', 'app': i, 'route': rng.randrange(len(routes)), 'index': idx})
-            elif r < 0.4:
+            elif r < 0.36:
                 ops.append({'op': 'add_tuple', 'app': i, 'entry': entry(), 'index': idx})
+            elif r < 0.4:
+                # a decorated variant of an endpoint that may already be bound elsewhere: functools.wraps around it,
+                # with a signature of its own (it also takes one of THIS application's resources)
+                ops.append({'op': 'add_wrapped', 'app': i, 'route': rng.randrange(len(routes)), 'index': idx})
             elif r < 0.55 and len(live) > 1:
                 j = rng.choice(sorted(live - set([i])))
                 if rng.random() < 0.25:
@@ -363,6 +367,28 @@ class C11(Check):
                         res.probe('failing-op-succeeded')      # scenario self-check; not C11's business in itself
                         break
                     pool.apps[i], pool.model[i] = app, model
+            elif kind == 'add_wrapped':
+                import functools
+                inner_ep = pool.route_obj(op['route']).endpoint
+                e0 = cfg['routes'][op['route']]
+                resname = sorted(pool.res[i])[0]
+                src = ('def wrapper(_route, _application, request, %s):\n'
+                       '    seen.append(%s)\n'
+                       '    return inner(_route, _application, request)\n') % (resname, resname)
+                seen = []
+                ns = {'inner': inner_ep, 'seen': seen}
+                exec(src, ns)
+                wrapper = functools.wraps(inner_ep)(ns['wrapper'])
+                tagn = 'w%d' % step
+                e = dict(e0, tag=e0['tag'], route_res=[], route_mw=False)
+                obj = Route(e['pattern'], wrapper, 'tmpl' if e['out'] == 'ctx' else None, methods=e['methods'])
+                try:
+                    pool.apps[i].add(obj, index=op['index'])
+                except Exception as ex:
+                    res.violate(K + 'add-failed:%s' % type(ex).__name__, 'step %d: adding a functools.wraps-decorated endpoint raised %r' % (step, ex), step)
+                    break
+                self.insert(pool.model[i], [pool.bound_entry(e, i)], op['index'], res)
+                res.probe('decorated-variant-of-an-endpoint-bound-elsewhere')
             elif kind in ('add_route', 'add_tuple'):
                 if kind == 'add_route':
                     obj = pool.route_obj(op['route'])
